@@ -1,6 +1,6 @@
 #!/bin/bash
 # usage: tools/try_mutant.sh <patch.diff> <ID> [<ID>...]   (applies to /repo, runs quick checks, reverts)
-P="$1"; shift
+P="$(realpath "$1")"; shift
 cd /verif
 git -C /repo apply "$P" || { echo "patch does not apply"; exit 3; }
 trap 'git -C /repo checkout -- . ' EXIT
